@@ -1,4 +1,5 @@
 import Tpp.Lemmas.DrawFrame
+import Tpp.Lemmas.RendOnly
 /-!
 C04 – `screen.draw` sends only the cells that changed; an unchanged canvas sends nothing.
 
@@ -57,6 +58,50 @@ theorem C04_wire_exact (beh : Behaviour) (scr : ScreenState) (c : Canvas) (s : T
       intro p hp; rw [mem_fullRegion] at hp; exact hwf p.1 p.2 hp.1.1 hp.1.2 hp.2.1 hp.2.2
     exact (draw_loop beh (Screen.base scr c) c (fullRegion c) s vt hA hin hwfp).2.2.2.2.1
   · exact (draw_frame beh scr c s vt hA hsize hwf (fun h => absurd h hsz)).2.2.1
+
+/-- the elements a draw asks the terminal to show are the changed cells' elements, in row-major order -/
+theorem drawOps_elements (scr : ScreenState) (c : Canvas) :
+    ((Screen.draw scr c).2.map REv.op).flatMap REv.elements
+      = ((fullRegion c).filter (changedCell (Screen.base scr c) c)).map (fun p => c.get p.1 p.2) := by
+  rw [C04_ops_exact]
+  simp only [List.map_append, List.flatMap_append]
+  have h1 : ((if c.size ≠ scr.last.size then [Op.erase .display] else []).map REv.op).flatMap REv.elements = [] := by
+    split <;> rfl
+  rw [h1, List.nil_append]
+  induction (fullRegion c).filter (changedCell (Screen.base scr c) c) with
+  | nil => rfl
+  | cons p ps ih =>
+    simp only [List.flatMap_cons, List.map_append, List.flatMap_append, List.map_cons, ih]
+    rfl
+
+/-- **no size needed**: whatever the library believes about sizes and positions (no `set_size`, a canvas larger
+    or smaller than the terminal), the glyphs a draw transmits are exactly the changed cells' elements – each once,
+    in row-major order, with exactly the requested look – and nothing else is printed.  (WHERE they land is C03's
+    business and needs the declared-size protocol.) -/
+theorem C04_wire_cells_any_size (beh : Behaviour) (scr : ScreenState) (c : Canvas) (s : TermState) (vt : VT)
+    (hA : AgreeRend s vt) (hwf : c.cellsWF) :
+    ∃ entries, (vt.feedAll (drawRun beh scr c s).2).log = vt.log ++ entries ∧
+      entries.map (·.2.2) = ((fullRegion c).filter (changedCell (Screen.base scr c) c)).map (fun p => cellOf (c.get p.1 p.2)) := by
+  have hall : ∀ op ∈ (Screen.draw scr c).2, op.WFR0 := by
+    intro op hop
+    rw [C04_ops_exact] at hop
+    rcases List.mem_append.mp hop with h | h
+    · split at h
+      · simp at h; subst h; trivial
+      · simp at h
+    · rw [List.mem_flatMap] at h
+      obtain ⟨p, hp, hmem⟩ := h
+      have hin := (mem_fullRegion c p).mp (List.mem_filter.mp hp).1
+      simp at hmem
+      rcases hmem with rfl | rfl
+      · exact ⟨hin.1.1, hin.2.1⟩
+      · exact hwf p.1 p.2 hin.1.1 hin.1.2 hin.2.1 hin.2.2
+  obtain ⟨_, entries, hlog, hcells⟩ := agreeRend_run beh ((Screen.draw scr c).2.map REv.op) (s, vt) hA
+    (rrunwf_of_all beh _ hall _)
+  rw [RSys.run_ops] at hlog
+  refine ⟨entries, hlog, ?_⟩
+  rw [hcells, drawOps_elements, List.map_map]
+  rfl
 
 -- non-vacuity: a 2x1 canvas whose second cell differs from the blank frame
 example : (fullRegion (((Canvas.new ⟨2, 1⟩).set 1 0 { glyph := { b0 := 0x41 } }))).filter
